@@ -6,7 +6,6 @@ import (
 	"go/constant"
 	"go/token"
 	"go/types"
-	"sort"
 	"strings"
 
 	"golang.org/x/tools/go/ssa"
@@ -669,106 +668,6 @@ func isUnknownIdentOK(cond ssa.Value, al map[ssa.Value]bool, neg bool) bool {
 }
 
 // ---- R2 (operator set) ------------------------------------------------------------
-
-func toleranceOperatorSet(r *Run) {
-	w := r.W
-	f := w.evalMethod("InfixExpression")
-	if f == nil {
-		r.Lost("R2", "infix evaluator")
-		return
-	}
-	info := f.Pkg.TypesInfo
-	node := f.Obj.Type().(*types.Signature).Params().At(0)
-	// every comma-ok assertion to *ErrUnknownIdentifier in the infix evaluator must sit in an
-	// if whose condition also requires the operator-set flag; the flag must be exactly
-	// node.Operator == "==" || "!=" || "||" || "&&"
-	wantSet := map[string]bool{"==": true, "!=": true, "&&": true, "||": true}
-	opSetOf := func(e ast.Expr) (map[string]bool, bool) {
-		set := map[string]bool{}
-		for _, d := range disjuncts(e) {
-			be, ok := unparen(d).(*ast.BinaryExpr)
-			if !ok || be.Op != token.EQL {
-				return nil, false
-			}
-			x, fld := fieldOf(info, be.X)
-			s, isC := constString(info, be.Y)
-			if fld == nil || fld.Name() != "Operator" || objOf(info, x) != node || !isC {
-				return nil, false
-			}
-			set[s] = true
-		}
-		return set, true
-	}
-	flags := map[types.Object]map[string]bool{}
-	inspectBody(f.Decl.Body, true, func(n ast.Node) bool {
-		as, ok := n.(*ast.AssignStmt)
-		if !ok || len(as.Lhs) != 1 || len(as.Rhs) != 1 {
-			return true
-		}
-		if set, ok := opSetOf(as.Rhs[0]); ok {
-			flags[objOf(info, as.Lhs[0])] = set
-		}
-		return true
-	})
-	n := 0
-	inspectBody(f.Decl.Body, true, func(nd ast.Node) bool {
-		ifs, ok := nd.(*ast.IfStmt)
-		if !ok || ifs.Init == nil {
-			return true
-		}
-		as, ok := ifs.Init.(*ast.AssignStmt)
-		if !ok || len(as.Rhs) != 1 {
-			return true
-		}
-		ta, ok := as.Rhs[0].(*ast.TypeAssertExpr)
-		if !ok || ta.Type == nil || !namedIs(info.Types[ta.Type].Type, modPath, "ErrUnknownIdentifier") {
-			return true
-		}
-		n++
-		// condition: !ok || !flag   (returning)  -- the tolerated path requires ok && flag
-		var set map[string]bool
-		for _, d := range disjuncts(ifs.Cond) {
-			u, isNot := unparen(d).(*ast.UnaryExpr)
-			if !isNot || u.Op != token.NOT {
-				continue
-			}
-			if s, ok := flags[objOf(info, u.X)]; ok {
-				set = s
-			} else if s, ok := opSetOf(u.X); ok {
-				set = s
-			}
-		}
-		con := "tolerance guard " + short(w.Fset, ifs.Cond)
-		if set == nil {
-			r.Bad("R2", f.Name(), con, w.Pos(ifs.Pos()), "in the infix evaluator the unknown-identifier tolerance must additionally require the operator to be one of == != && ||")
-			return true
-		}
-		var extra, missing []string
-		for k := range set {
-			if !wantSet[k] {
-				extra = append(extra, k)
-			}
-		}
-		for k := range wantSet {
-			if !set[k] {
-				missing = append(missing, k)
-			}
-		}
-		sort.Strings(extra)
-		sort.Strings(missing)
-		if len(extra) > 0 {
-			r.Bad("R2", f.Name(), con+" operator set +"+strings.Join(extra, ","), w.Pos(ifs.Pos()), "the tolerance is widened to operators the property does not list")
-		} else if len(missing) > 0 {
-			r.Bad("R2", f.Name(), con+" operator set -"+strings.Join(missing, ","), w.Pos(ifs.Pos()), "the tolerance no longer covers an operator the property lists")
-		} else {
-			r.Ok("R2", f.Name(), con, w.Pos(ifs.Pos()), "requires the typed error and operator in {== != && ||}")
-		}
-		return true
-	})
-	if n < 2 {
-		r.Bad("R2", f.Name(), fmt.Sprintf("%d typed tolerance site(s) in the infix evaluator", n), w.Pos(f.Decl.Pos()), "both operands need the typed, operator-restricted tolerance")
-	}
-}
 
 // ---- R3 ---------------------------------------------------------------------
 
